@@ -146,6 +146,11 @@ var adversarial = []string{
 	"@lexer\nA = 'a'\n@parser\n@start s = A @left(1) @left(2)\n", "@lexer\nA = 'a'\n@parser\n@start s = @left(1)\n", "@lexer\nA = 'a'\n@parser\n@start s = A | @empty @left(1)\n",
 	"@lexer\n@macro DIGITS = [0-9] DIGITS\n@macro NUMBER = '-'? DIGITS\n", "@lexer\n@macro DIGITS = [0-9] DIGITS\n@macro NUMBER = '-'? DIGITS\nN = NUMBER\n",
 	"@lexer\n@macro A = B\n@macro B = C 'x'\n@macro C = B\nT = A\n", "@lexer\n@macro OUT = IN1 | IN2\n@macro IN1 = IN2 'a'\n@macro IN2 = IN1 'b'\n",
+	"@lexer\nA = 'a' @push_mode(A)\n", "@lexer\n@macro M = 'm'\nA = 'a' @push_mode(M)\n", "@lexer\nA = 'a' @push_mode(s)\n@parser\n@start s = A\n", "@lexer\n@external X\nA = 'a' @push_mode(X)\n",
+	"@lexer\n@mode M {\n  A = 'a' @pop_mode\n}\n@frag 'b' @emit(M)\nB = 'c' @push_mode(M)\n", "@lexer\nA = 'a'\n@frag 'b' @emit(s)\n@parser\n@start s = A\n", "@lexer\n@macro M = 'm'\nA = M\n@frag 'b' @emit(M)\n",
+	"@lexer\n@mode M {\n  A = 'a' @pop_mode\n}\nB = 'b' M+ @push_mode(M)\n", "@lexer\nA = 'a'\nB = 'b' A+\n", "@lexer\nA = 'a'\nB = 'b' s\n@parser\n@start s = A\n",
+	"@lexer\n@mode M {\n  A = 'a' @pop_mode\n}\nB = 'b' @push_mode(M)\n@parser\n@start s = B M\n", "@lexer\n@macro M = 'm'\nA = M\n@parser\n@start s = A M\n",
+	"@lexer\nA = '\\U80000000'\n", "@lexer\nA = [a-\\UF0938583]\n", "@lexer\nA = '\\xFF'\n", "@lexer\nA = [\\x80-\\xFF]\n",
 	"@lexer\nA = [a-z] - [a-z]\n", "@lexer\nA = [a-z] - [b] - [c]\n", "@lexer\nA = 'a' - 'b'\n", "@lexer\nA = ~~[a]\n", "@lexer\nA = ~'a'\n",
 }
 
